@@ -115,22 +115,34 @@ std::string runCase(const vio::Case &c) {
   // ---------------------------------------------------------------- compile
   std::string errtype, err;
   bool located = false;
-  // C11: unrelated compilations earlier in the same process (fields pre0, pre1, ...)
+  // C11: unrelated compilations earlier in the same process (fields pre0, pre1, ...); with the field `reuse` they and
+  // the compilation under test go through one Driver object (its lexer and parser are members that live on).
+  std::ostringstream sharedSink;
+  std::unique_ptr<xcmp::Driver> shared;
+  if (c.has("reuse")) shared = std::make_unique<xcmp::Driver>(sharedSink);
   for (int k = 0; k < 64; k++) {
     std::string key = "pre" + std::to_string(k);
     if (!c.has(key.c_str())) break;
     std::ostringstream sink;
     try {
-      xcmp::Driver d0(sink);
-      d0.run(xcmp::DriverAction::EMIT_BINARY, c.str(key.c_str()), false, "x_pre.bin");
+      if (shared) {
+        shared->run((k % 3 == 2) ? xcmp::DriverAction::EMIT_ASM : xcmp::DriverAction::EMIT_BINARY, c.str(key.c_str()), false, "x_pre.bin");
+      } else {
+        xcmp::Driver d0(sink);
+        d0.run(xcmp::DriverAction::EMIT_BINARY, c.str(key.c_str()), false, "x_pre.bin");
+      }
     } catch (...) {}
     unlink("x_pre.bin");
   }
   {
     std::ostringstream sink;
     try {
-      xcmp::Driver driver(sink);
-      driver.run(xcmp::DriverAction::EMIT_BINARY, c.str("src"), false, binName);
+      if (shared) {
+        shared->run(xcmp::DriverAction::EMIT_BINARY, c.str("src"), false, binName);
+      } else {
+        xcmp::Driver driver(sink);
+        driver.run(xcmp::DriverAction::EMIT_BINARY, c.str("src"), false, binName);
+      }
     } catch (const hexutil::Error &e) { errtype = "Error"; err = e.what(); located = e.hasLocation(); }
     catch (const std::exception &e) { errtype = "std::exception"; err = e.what(); }
     catch (const LayoutRunaway &) { errtype = "layout-runaway"; err = "layout did not converge"; }
@@ -146,9 +158,15 @@ std::string runCase(const vio::Case &c) {
   if (wants("listing")) {
     std::ostringstream lst;
     try {
-      xcmp::Driver d2(lst);
-      d2.run(xcmp::DriverAction::EMIT_ASM, c.str("src"), false);
-      j.str("listing", lst.str());
+      if (shared) {
+        sharedSink.str("");
+        shared->run(xcmp::DriverAction::EMIT_ASM, c.str("src"), false);
+        j.str("listing", sharedSink.str());
+      } else {
+        xcmp::Driver d2(lst);
+        d2.run(xcmp::DriverAction::EMIT_ASM, c.str("src"), false);
+        j.str("listing", lst.str());
+      }
     } catch (const std::exception &e) { j.str("listing_error", e.what()); }
   }
   if (wants("noexec")) return j.done();
@@ -227,7 +245,8 @@ std::string runCase(const vio::Case &c) {
       if (rr.entries.size() < 20000) rr.entries.push_back((long long)ref.pc);
     }
     if (opc != refisa::PFIX && opc != refisa::NFIX) { prevOpc = (uint8_t)opc; prevAreg = ref.areg; }
-    if (ref.pc == exitStubAddr && !rr.mainReturned && opc == refisa::OPR) {
+    // control is back at the entry stub, by whatever instruction it got there
+    if (ref.pc == exitStubAddr && !rr.mainReturned) {
       rr.mainReturned = true; rr.spAtMainReturn = ref.mem[1];
     }
     if (!ref.running) { rr.ended = "exit"; return true; }
